@@ -64,6 +64,16 @@ def gen_C11(g, tier):
         for k in (1, 3, 5, 7): cm[k] = abs(cm[k])
         cs.append(Case('e.cmul %s' % frs(cm), 'cmp', 'complex-product'))
         cs.append(Case('o.c11.arith %s %s' % (frs(a), frs(b)), 'orc', 'arith-exact'))
+    # operands related to one another (equal state, equal value or variance only, opposite values): the rules are
+    # those of independent operands whatever the operands' states are
+    for _ in range(max(6, n // 5)):
+        a = g.rats(2); a[1] = abs(a[1]); o = g.rats(2); o[1] = abs(o[1])
+        for b, cls in ((list(a), 'operands-equal'), ([a[0], o[1]], 'operands-equal-value'), ([o[0], a[1]], 'operands-equal-variance'), ([-a[0], a[1]], 'operands-opposite')):
+            for op in ('e.add', 'e.sub', 'e.mul', 'e.div'):
+                cs.append(Case('%s %s %s' % (op, frs(a), frs(b)), 'cmp', cls))
+            cs.append(Case('o.c11.arith %s %s' % (frs(a), frs(b)), 'orc', cls))
+        cs.append(Case('e.cmul %s' % frs(a + a + a + a), 'cmp', 'operands-equal'))
+        cs.append(Case('e.cmul %s' % frs(a + o + a + o), 'cmp', 'operands-equal'))
     cs.append(Case('e.div 1 1/2 0 1/3', 'cmp', 'divide-by-zero'))
     cs.append(Case('e.inverse 0 1/3', 'cmp', 'divide-by-zero'))
     for f, dom in DOMAINS.items():
@@ -100,7 +110,7 @@ C11 = dict(
          'the same libm, and checked against a long-double central-difference derivative; bias-corrected Stokes invariant',
     trusted=['glibc libm (shared by harness and model driver)', 'long double central differences (oracle only)'],
     assumptions=['operands statistically independent (the rules are first order)', 'IEEE rounding of the variance arithmetic not proved'],
-    partial='atan2 on the line c = 0 (theorem covers the half-planes c != 0); floating-point rounding',
+    partial='atan2 at the origin (not differentiable there; the theorems cover c != 0 and s != 0); floating-point rounding',
 )
 
 
